@@ -17,7 +17,7 @@ ASSUMPTIONS = ["1 <= L < N; heights sorted increasing", "GCTM only on profiles w
                "zero-strength output layers (empty slabs) carry no height information and are not judged"]
 REQUIRED = ["profile_compression.py:equivalent_layers", "profile_compression.py:optimal_grouping", "profile_compression.py:GCTM",
             "profile_compression.py:_G", "profile_compression.py:_optGroupingMinimization"]
-REQUIRED_COUNTERS = ["gctm_minimize_calls_observed", "arange_rounding_class_cases", "global_rng_hostile_states", "jit_differential_groupings"]
+REQUIRED_COUNTERS = ["arange_rounding_class_cases", "global_rng_hostile_states", "jit_differential_groupings"]
 TIMEOUT = {"quick": 900, "thorough": 5400}
 
 
